@@ -645,6 +645,10 @@ func walkIPRanges(ranges []nets.IPRange, f func(ip net.IP) bool) {
 			if f(ip) {
 				return
 			}
+			if first == last {
+				// don't wrap around to 0 after 255.255.255.255
+				break
+			}
 		}
 	}
 }
